@@ -293,3 +293,297 @@ func c12FormatConstant(c *Ctx) {
 		c.R.Fail("format-constant found only %d fmt.Fprintf calls in package transport", n)
 	}
 }
+
+// c12WriterGoroutineBounded: net/http forbids any use of the ResponseWriter after the handler has returned (its buffers are
+// recycled: a late write is a data race with the server's own goroutine or a nil dereference that kills the process).  So a
+// goroutine of a transport that can write or flush the ResponseWriter is, for every return of Do after the spawn, either
+//
+//	(joined) waited for: a `defer` registered by Do in a block that is executed whenever the goroutine was started receives
+//	from (or ranges over / waits on) a channel that the goroutine closes or sends on when it ends — Do does not return
+//	before the goroutine is gone; or
+//	(drained) the reviewed multipart/mixed form: the goroutine writes only through a method whose writer operations all come
+//	after an early return taken when nothing is pending, and Do's deferred Done calls that same method after signalling the
+//	goroutine — the last locked flush leaves nothing pending, and nothing is added once Do has returned.
+func c12WriterGoroutineBounded(c *Ctx) {
+	c.R.Rule("writer-goroutine-bounded", "every goroutine of a transport that can write or flush the ResponseWriter is joined by a deferred wait in Do, or writes only through a drain method (early return when nothing is pending) that Do's deferred Done calls last", 2)
+	spawns := c12WriterSpawns(c)
+	for _, sp := range spawns {
+		key := shortFn(sp.do) + "/goroutine:" + shortFn(sp.goSite.Callee)
+		if why := goroutineJoined(sp); why != "" {
+			c.R.OK(key, c.ipos(sp.goSite.Go), "joined: "+why)
+			continue
+		}
+		if why := goroutineDrained(c, sp); why != "" {
+			c.R.OK(key, c.ipos(sp.goSite.Go), "drained: "+why)
+			continue
+		}
+		c.R.Bad(key, c.ipos(sp.goSite.Go), "this goroutine writes to the ResponseWriter and nothing makes Do wait for it (it stops on the request context, which net/http cancels only after the handler has returned): a tick in between writes into a response that is being finished — a data race with the server, or a nil dereference in bufio that crashes the process")
+	}
+	if len(spawns) < 2 {
+		c.R.Fail("writer-goroutine-bounded: %d writer-sharing goroutines found", len(spawns))
+	}
+}
+
+// goroutineJoined: the go statement's function (or the closure wrapping it) closes/sends on a channel at its end, and a
+// defer of the spawner registered in the go statement's block (or one dominating every later return) receives from it.
+func goroutineJoined(sp writerSpawn) string {
+	spawner := sp.goSite.Go.Parent()
+	body := sp.goSite.Callee
+	if body == nil {
+		return ""
+	}
+	// channels signalled by the goroutine at its end: close(ch) / send in a deferred call or as the last effect
+	signalled := map[ssa.Value]bool{}
+	addSig := func(fn *ssa.Function, bindings map[*ssa.FreeVar]ssa.Value) {
+		for _, f := range an.WithClosures(fn) {
+			for _, b := range f.Blocks {
+				for _, in := range b.Instrs {
+					var ch ssa.Value
+					switch x := in.(type) {
+					case *ssa.Defer:
+						if bi, ok := x.Call.Value.(*ssa.Builtin); ok && bi.Name() == "close" {
+							ch = x.Call.Args[0]
+						}
+					case *ssa.Call:
+						if bi, ok := x.Call.Value.(*ssa.Builtin); ok && bi.Name() == "close" {
+							ch = x.Call.Args[0]
+						}
+					case *ssa.Send:
+						ch = x.Chan
+					}
+					if ch == nil {
+						continue
+					}
+					ch = an.Strip(ch)
+					if u, ok := ch.(*ssa.UnOp); ok {
+						ch = u.X
+					}
+					if fv, ok := ch.(*ssa.FreeVar); ok && bindings[fv] != nil {
+						ch = bindings[fv]
+					}
+					signalled[an.RootAlloc(ch)] = true
+					signalled[ch] = true
+				}
+			}
+		}
+	}
+	bind := map[*ssa.FreeVar]ssa.Value{}
+	if mc, ok := sp.goSite.Go.Call.Value.(*ssa.MakeClosure); ok {
+		cl := mc.Fn.(*ssa.Function)
+		for i, fv := range cl.FreeVars {
+			if i < len(mc.Bindings) {
+				bind[fv] = mc.Bindings[i]
+			}
+		}
+	}
+	addSig(body, bind)
+	if len(signalled) == 0 {
+		return ""
+	}
+	// does a function literal wait (unconditionally) for one of the signalled channels?
+	closureWaits := func(mc *ssa.MakeClosure) bool {
+		cl := mc.Fn.(*ssa.Function)
+		dbind := map[*ssa.FreeVar]ssa.Value{}
+		for i, fv := range cl.FreeVars {
+			if i < len(mc.Bindings) {
+				dbind[fv] = mc.Bindings[i]
+			}
+		}
+		for _, bb := range cl.Blocks {
+			for _, in2 := range bb.Instrs {
+				u, ok := in2.(*ssa.UnOp)
+				if !ok || u.Op.String() != "<-" {
+					continue
+				}
+				ch := an.Strip(u.X)
+				if l, ok := ch.(*ssa.UnOp); ok {
+					ch = l.X
+				}
+				if fv, ok := ch.(*ssa.FreeVar); ok && dbind[fv] != nil {
+					ch = dbind[fv]
+				}
+				if signalled[ch] || signalled[an.RootAlloc(ch)] {
+					// the wait must be unconditional in the function
+					if bb == cl.Blocks[0] || len(cl.Blocks) == 1 || bb.Dominates(cl.Blocks[len(cl.Blocks)-1]) {
+						return true
+					}
+				}
+			}
+		}
+		return false
+	}
+	// (A) a defer in the spawner, after the go statement, whose function receives from such a channel
+	for _, b := range spawner.Blocks {
+		for _, in := range b.Instrs {
+			d, ok := in.(*ssa.Defer)
+			if !ok {
+				continue
+			}
+			if !(b == sp.goSite.Go.Block() || sp.goSite.Go.Block().Dominates(b)) {
+				continue
+			}
+			if mc, ok := d.Call.Value.(*ssa.MakeClosure); ok && closureWaits(mc) {
+				return "a deferred function of " + shortFn(spawner) + " receives from the channel the goroutine closes when it ends"
+			}
+		}
+	}
+	// (B) the goroutine is started by a helper that returns the stop-and-wait function, and Do defers that result right away
+	if spawner != sp.do {
+		waits := false
+		for _, r := range an.Returns(spawner) {
+			for i := range r.Results {
+				for _, d := range an.Defs(an.ReturnedValue(r, i)) {
+					if mc, ok := d.(*ssa.MakeClosure); ok && closureWaits(mc) {
+						waits = true
+					}
+				}
+			}
+		}
+		if call, ok := sp.at.(*ssa.Call); ok && waits && call.Call.StaticCallee() == spawner {
+			for _, b := range sp.do.Blocks {
+				if !(b == call.Block() || call.Block().Dominates(b)) {
+					continue
+				}
+				for _, in := range b.Instrs {
+					d, ok := in.(*ssa.Defer)
+					if !ok {
+						continue
+					}
+					for _, def := range an.Defs(d.Call.Value) {
+						v := def
+						if ex, ok := v.(*ssa.Extract); ok {
+							v = ex.Tuple
+						}
+						if v == ssa.Value(call) {
+							return shortFn(spawner) + " returns the function that stops the goroutine and waits for it; " + shortFn(sp.do) + " defers it"
+						}
+					}
+				}
+			}
+		}
+	}
+	return ""
+}
+
+// goroutineDrained: the reviewed multipart/mixed form (see c12WriterGoroutineBounded).
+func goroutineDrained(c *Ctx, sp writerSpawn) string {
+	body := sp.goSite.Callee
+	if body == nil {
+		return ""
+	}
+	// (1) the goroutine touches the writer only by calling one method M of the package
+	var drain *ssa.Function
+	for _, f := range an.WithClosures(body) {
+		for _, op := range writerOps(f) {
+			if op.helper == nil || op.wrapper != nil {
+				return "" // it writes itself
+			}
+			if drain != nil && drain != op.helper {
+				return ""
+			}
+			drain = op.helper
+		}
+	}
+	if drain == nil {
+		return ""
+	}
+	// (2) in M, an early return guarded by emptiness tests of receiver fields dominates every writer operation
+	var early *ssa.Return
+	for _, r := range an.Returns(drain) {
+		nEmpty := 0
+		for _, f := range an.Facts(r) {
+			if empty, ok := an.EmptinessFact(f, func(v ssa.Value) bool {
+				fa, isF := loadAddr(v).(*ssa.FieldAddr)
+				return isF && an.Strip(fa.X) == ssa.Value(drain.Params[0])
+			}); ok && empty {
+				nEmpty++
+			}
+		}
+		if nEmpty >= 1 && len(writerOpsBefore(drain, r)) == 0 {
+			early = r
+		}
+	}
+	if early == nil {
+		return ""
+	}
+	for _, op := range allWriterOps(drain) {
+		// every operation must lie behind the tests that lead to the early return
+		ok := false
+		for _, g := range an.Guards(early) {
+			if g.If.Block().Dominates(op.Block()) {
+				ok = true
+			}
+		}
+		if !ok {
+			return ""
+		}
+	}
+	// (3) Do defers a function of the package that signals a channel and then calls M
+	for _, b := range sp.do.Blocks {
+		for _, in := range b.Instrs {
+			d, ok := in.(*ssa.Defer)
+			if !ok {
+				continue
+			}
+			callee := d.Call.StaticCallee()
+			if callee == nil || len(callee.Blocks) == 0 {
+				continue
+			}
+			var send, callM ssa.Instruction
+			for _, bb := range callee.Blocks {
+				for _, in2 := range bb.Instrs {
+					switch x := in2.(type) {
+					case *ssa.Send:
+						send = x
+					case *ssa.Call:
+						if bi, ok := x.Call.Value.(*ssa.Builtin); ok && bi.Name() == "close" {
+							send = x
+						}
+						if x.Call.StaticCallee() == drain {
+							callM = x
+						}
+					}
+				}
+			}
+			if send != nil && callM != nil && an.Before(send, callM) {
+				return shortFn(drain) + " writes only when something is pending (early return at " + c.ipos(early) + "); deferred " + shortFn(callee) + " signals the goroutine and then drains"
+			}
+		}
+	}
+	return ""
+}
+
+func allWriterOps(fn *ssa.Function) []ssa.Instruction {
+	var out []ssa.Instruction
+	seen := map[*ssa.Function]bool{}
+	var walk func(f *ssa.Function, site ssa.Instruction, depth int)
+	walk = func(f *ssa.Function, site ssa.Instruction, depth int) {
+		if seen[f] || depth > 3 {
+			return
+		}
+		seen[f] = true
+		for _, op := range writerOps(f) {
+			at := site
+			if at == nil {
+				at = op.in
+			}
+			if op.helper == nil {
+				out = append(out, at)
+				continue
+			}
+			walk(op.helper, at, depth+1)
+		}
+	}
+	walk(fn, nil, 0)
+	return out
+}
+
+func writerOpsBefore(fn *ssa.Function, r *ssa.Return) []ssa.Instruction {
+	var out []ssa.Instruction
+	for _, op := range allWriterOps(fn) {
+		if an.CanReach(op, r) {
+			out = append(out, op)
+		}
+	}
+	return out
+}
